@@ -20,7 +20,14 @@ from grpc import aio
 from .simclock import CLOCK, EPOCH, CURRENT_OP
 
 
+class SimRunaway(BaseException):
+    """The simulated client exceeded every modelled bound (attempts per op / history length).
+    Derives from BaseException so that retry loops in the code under test cannot swallow it."""
+
+
 class Sim:
+    max_attempts_per_op = 150
+
     def __init__(self, server):
         self.server = server
         self.history = []
@@ -29,7 +36,7 @@ class Sim:
 
     def ev(self, k_, **kw):
         if len(self.history) >= self.max_events:
-            raise RuntimeError("history cap reached")
+            raise SimRunaway("history cap reached")
         e = {"seq": len(self.history), "t": round(CLOCK.now - EPOCH, 6), "k": k_}
         e.update(kw)
         self.history.append(e)
@@ -39,6 +46,8 @@ class Sim:
         op = CURRENT_OP.get()
         n = self.attempt_no.get(op, 0) + 1
         self.attempt_no[op] = n
+        if n > self.max_attempts_per_op:
+            raise SimRunaway(f"op {op}: more than {self.max_attempts_per_op} attempts")
         md = []
         for k, v in (metadata or ()):
             md.append([k, v.hex() if isinstance(v, bytes) else v])
